@@ -1429,6 +1429,10 @@ func compileTableExpr(context *funcContext, reg int, ex *ast.TableExpr, ec *expc
 				num = FieldsPerFlush
 			}
 			c := (arraycount-1)/FieldsPerFlush + 1
+			if lastvararg {
+				// the open results follow the arraycount items already counted
+				c = arraycount/FieldsPerFlush + 1
+			}
 			b := num
 			if lastvararg {
 				b = 0
